@@ -305,7 +305,7 @@ func verifC18Sys(id string, seed int64) *verifSys {
 					}
 				}
 			default: // plaintext
-				if c.Policies.has(requireEncryption) {
+				if cfgPol := verifParsePol(pp[e.I]); cfgPol.has(requireEncryption) { // as configured by the application
 					m.Queued[e.I] = append(m.Queued[e.I], t)
 					for _, o := range r.Out {
 						if bytes.Contains(o, t) {
